@@ -846,6 +846,8 @@ def run(ctx, out, tier):
     shared.check_scan_state(ctx, out, "C02.scanstate")
     # a violation found in a touched block survives the merge of the validators' results (append-only)
     shared.sh_merge(ctx, out, ctx.reachable_bodies())
+    from rules.C01 import check_linekind
+    check_linekind(ctx, out, rule="C02.linekind")
     return meta()
 
 
